@@ -604,3 +604,640 @@ Section Proofs.
     apply IH in H; [|exact I|exact Fr|reflexivity]. cbn in H. exact H.
   Qed.
 End Proofs.
+
+Section ConstrainTotal.
+  Variable c : cfg.
+
+  (* ---------------------------------------------------------------- constrain never runs out of fuel *)
+  Lemma adjust0_total cy ml so mn mx : forall fuel n, mn <= n ->
+    Z.max 0 (so - (cy - n)) < Z.of_nat fuel ->
+    exists r, adjust fuel false cy ml so mn mx n = Ok r /\ mn <= r <= n.
+  Proof.
+    induction fuel as [|f IH]; intros n Hn Hf; [cbn in Hf; lia|].
+    cbn -[Z.max Z.min]. 
+    destruct ((cy - n <? so) && (ml - (cy - n + 1) <? so)) eqn:B; [exists n; split; [reflexivity|lia]|].
+    cbn [negb andb].
+    destruct (cy - n <? so) eqn:L.
+    - apply Z.ltb_lt in L. destruct (Z.max mn (n - 1) =? n) eqn:E; [exists n; split; [reflexivity|lia]|].
+      apply Z.eqb_neq in E. assert (E1 : Z.max mn (n - 1) = n - 1) by lia. rewrite E1.
+      destruct (IH (n - 1)) as (r & Hr & Rr); [lia|lia|]. exists r. split; [exact Hr|lia].
+    - rewrite Z.eqb_refl. exists n. split; [reflexivity|lia].
+  Qed.
+
+  Lemma adjust1_total cy ml so mn mx : forall fuel n, n <= mx ->
+    Z.max 0 (so - (ml - (cy - n + 1))) < Z.of_nat fuel ->
+    exists r, adjust fuel true cy ml so mn mx n = Ok r /\ n <= r <= mx.
+  Proof.
+    induction fuel as [|f IH]; intros n Hn Hf; [cbn in Hf; lia|].
+    cbn -[Z.max Z.min].
+    destruct ((cy - n <? so) && (ml - (cy - n + 1) <? so)) eqn:B; [exists n; split; [reflexivity|lia]|].
+    cbn [negb andb].
+    destruct (ml - (cy - n + 1) <? so) eqn:L.
+    - apply Z.ltb_lt in L. destruct (Z.min mx (n + 1) =? n) eqn:E; [exists n; split; [reflexivity|lia]|].
+      apply Z.eqb_neq in E. assert (E1 : Z.min mx (n + 1) = n + 1) by lia. rewrite E1.
+      destruct (IH (n + 1)) as (r & Hr & Rr); [lia|lia|]. exists r. split; [exact Hr|lia].
+    - rewrite Z.eqb_refl. exists n. split; [reflexivity|lia].
+  Qed.
+
+  Lemma constrain_loop_total cnt ml : 1 <= ml -> forall tries cy off, exists r, constrain_loop c tries cnt ml cy off = Ok r.
+  Proof.
+    intros M. induction tries as [|tries IH]; intros cy off; [eexists; reflexivity|].
+    cbn -[Z.max Z.min Z.div Z.to_nat adjust].
+    set (cy1 := constrain_z cy 0 (Z.max 0 (cnt - 1))).
+    set (mn := Z.max (cy1 - ml + 1) 0). set (mx := Z.max (Z.min (cnt - ml) cy1) 0).
+    set (o0 := constrain_z off mn mx).
+    assert (C1 : 0 <= cy1 <= Z.max 0 (cnt - 1)) by (apply constrain_z_range; lia).
+    assert (MM : mn <= mx) by (unfold mn, mx; lia).
+    assert (O0 : mn <= o0 <= mx) by (apply constrain_z_range; exact MM).
+    destruct (0 <? c_scrolloff c) eqn:Sc.
+    - apply Z.ltb_lt in Sc.
+      set (so := Z.min (ml / 2) (c_scrolloff c)).
+      assert (SO : so <= ml) by (unfold so; pose proof (Z.div_le_upper_bound ml 2 ml ltac:(lia) ltac:(lia)); lia).
+      destruct (adjust0_total cy1 ml so mn mx (S (S (Z.to_nat ml))) o0) as (o1 & H1 & R1); [lia| |].
+      { unfold mx in O0. lia. }
+      rewrite H1. cbn [bind].
+      destruct (adjust1_total cy1 ml so mn mx (S (S (Z.to_nat ml))) o1) as (o2 & H2 & R2); [lia| |].
+      { unfold mn in R1. lia. }
+      rewrite H2. cbn [bind]. destruct (o2 =? off); [eexists; reflexivity|apply IH].
+    - cbn [bind]. destruct (o0 =? off); [eexists; reflexivity|apply IH].
+  Qed.
+
+  Theorem constrain_total_proof : forall s, exists s', constrain c s = Ok s'.
+  Proof.
+    intro s. unfold constrain.
+    destruct (Z_lt_le_dec (c_maxitems c) 1) as [Lt|Ge].
+    - replace (Z.to_nat (c_maxitems c)) with O by lia. cbn. eexists; reflexivity.
+    - destruct (constrain_loop_total (count s) (c_maxitems c) Ge (Z.to_nat (c_maxitems c)) (s_cy s)
+                  (constrain_z (s_offset s) 0 (count s))) as [r Hr].
+      rewrite Hr. cbn [bind]. eexists; reflexivity.
+  Qed.
+
+  Theorem cursor_inv_total_proof : forall s, 1 <= c_maxitems c ->
+    exists s', constrain c s = Ok s' /\
+      ((count s' = 0 /\ current_item s' = Ok None) \/ 0 <= s_cy s' < count s').
+  Proof.
+    intros s M. destruct (constrain_total_proof s) as [s' H]. exists s'. split; [exact H|]. eapply cursor_inv_proof; eauto.
+  Qed.
+End ConstrainTotal.
+
+
+(* ---------------------------------------------------------------- the word scanners travel exactly word_span *)
+Definition nlfree (l : str) : Prop := Forall (fun x => x <> NLc) l.
+
+Lemma drop_while_len {A} (p : A -> bool) l : (length (drop_while p l) <= length l)%nat.
+Proof. induction l as [|x l IH]; cbn; [lia|]. destruct (p x); cbn; lia. Qed.
+
+Lemma drop_while_skipn {A} (p : A -> bool) l : drop_while p l = skipn (length l - length (drop_while p l)) l.
+Proof.
+  induction l as [|x l IH]; cbn [drop_while]; [reflexivity|]. destruct (p x) eqn:E; cbn [length].
+  - pose proof (drop_while_len p l). replace (S (length l) - length (drop_while p l))%nat with (S (length l - length (drop_while p l))) by lia.
+    cbn [skipn]. exact IH.
+  - now rewrite Nat.sub_diag.
+Qed.
+
+Lemma skipn_skipn' {A} : forall a b (l : list A), skipn a (skipn b l) = skipn (a + b) l.
+Proof.
+  intros a b. revert a. induction b as [|b IH]; intros a l; [now rewrite Nat.add_0_r|].
+  destruct l as [|x l]; [now rewrite !skipn_nil|]. rewrite Nat.add_succ_r. cbn [skipn]. apply IH.
+Qed.
+
+Definition dw2 (w : Z -> bool) (l : str) : str := drop_while w (drop_while (fun c => negb (w c)) l).
+
+Lemma dw2_len w l : (length (dw2 w l) <= length l)%nat.
+Proof. unfold dw2. pose proof (drop_while_len w (drop_while (fun c => negb (w c)) l)). pose proof (drop_while_len (fun c => negb (w c)) l). lia. Qed.
+Lemma word_span_le w l : (word_span w l <= length l)%nat.
+Proof. unfold word_span. lia. Qed.
+Lemma word_span_dw2 w l : word_span w l = (length l - length (dw2 w l))%nat.
+Proof. reflexivity. Qed.
+Lemma dw2_skipn w l : dw2 w l = skipn (word_span w l) l.
+Proof.
+  unfold word_span, dw2. set (l1 := drop_while (fun c => negb (w c)) l). set (l2 := drop_while w l1).
+  assert (H1 : l1 = skipn (length l - length l1) l) by apply drop_while_skipn.
+  assert (H2 : l2 = skipn (length l1 - length l2) l1) by apply drop_while_skipn.
+  pose proof (drop_while_len w l1) as L2. fold l2 in L2.
+  pose proof (drop_while_len (fun c => negb (w c)) l) as L1. fold l1 in L1.
+  transitivity (skipn (length l1 - length l2) (skipn (length l - length l1) l)).
+  - rewrite <- H1. exact H2.
+  - rewrite skipn_skipn'. f_equal. lia.
+Qed.
+Lemma word_span_pos w x l : (1 <= word_span w (x :: l))%nat.
+Proof.
+  unfold word_span. cbn [drop_while]. destruct (w x) eqn:E; cbn [negb drop_while length].
+  - rewrite E. pose proof (drop_while_len w l). lia.
+  - pose proof (dw2_len w l). unfold dw2 in H. lia.
+Qed.
+
+Section Scan.
+  Variable w : Z -> bool.
+  Definition p2w (a b : Z) : bool := negb (w a) && w b.
+
+  Lemma find_last_ext (p q : Z -> Z -> bool) : (forall a b, p a b = q a b) -> forall s, find_last p s = find_last q s.
+  Proof. intros E s. induction s as [|a t IH]; cbn; [reflexivity|]. rewrite IH. destruct (find_last q t); [reflexivity|]. destruct t; [reflexivity|]. now rewrite E. Qed.
+
+  Lemma find_last_one p x : find_last p [x] = None.
+  Proof. reflexivity. Qed.
+
+  Lemma find_last_snoc p : forall s y x,
+    find_last p ((s ++ [y]) ++ [x]) = if p y x then Some (length s) else find_last p (s ++ [y]).
+  Proof.
+    induction s as [|a s IH]; intros y x.
+    - cbn. destruct (p y x); reflexivity.
+    - change (find_last p (((a :: s) ++ [y]) ++ [x])) with
+        (match find_last p ((s ++ [y]) ++ [x]) with
+         | Some j => Some (S j)
+         | None => match (s ++ [y]) ++ [x] with b :: _ => if p a b then Some O else None | [] => None end
+         end).
+      rewrite IH. destruct (p y x); [reflexivity|].
+      change (find_last p ((a :: s) ++ [y])) with
+        (match find_last p (s ++ [y]) with
+         | Some j => Some (S j)
+         | None => match s ++ [y] with b :: _ => if p a b then Some O else None | [] => None end
+         end).
+      destruct (find_last p (s ++ [y])); [reflexivity|]. destruct s; reflexivity.
+  Qed.
+
+  (* backward, the cursor is right after a word character *)
+  Lemma find_last_in_word : forall rb y, w y = true ->
+    find_last_plus1 p2w (rev (y :: rb)) = length (drop_while w (y :: rb)).
+  Proof.
+    induction rb as [|z rb IH]; intros y Wy.
+    - cbn. now rewrite Wy.
+    - change (rev (y :: z :: rb)) with ((rev rb ++ [z]) ++ [y]).
+      unfold find_last_plus1. rewrite find_last_snoc. unfold p2w at 1. rewrite Wy, andb_true_r.
+      cbn [drop_while]. rewrite Wy.
+      destruct (w z) eqn:Wz; cbn [negb].
+      + specialize (IH z Wz). unfold find_last_plus1 in IH. change (rev (z :: rb)) with (rev rb ++ [z]) in IH.
+        cbn [drop_while] in IH. rewrite Wz in IH. exact IH.
+      + cbn [length]. now rewrite rev_length.
+  Qed.
+
+  Lemma find_last_is_span : forall rb, find_last_plus1 p2w (rev rb) = length (dw2 w rb).
+  Proof.
+    induction rb as [|x rb IH]; [reflexivity|].
+    destruct (w x) eqn:Wx.
+    - rewrite find_last_in_word by exact Wx. unfold dw2. cbn [drop_while]. rewrite Wx. cbn [negb drop_while]. rewrite Wx. reflexivity.
+    - unfold dw2. cbn [drop_while]. rewrite Wx. cbn [negb]. fold (dw2 w rb). rewrite <- IH.
+      destruct rb as [|z rb]; [reflexivity|].
+      change (rev (x :: z :: rb)) with ((rev rb ++ [z]) ++ [x]). unfold find_last_plus1. rewrite find_last_snoc.
+      unfold p2w at 1. rewrite Wx, andb_false_r. reflexivity.
+  Qed.
+End Scan.
+
+Section Fwd.
+  Variable is_alnum : Z -> bool.
+  Variable c : cfg.
+  Notation w := (isw is_alnum c).
+  Notation ffn := (find_first_next is_alnum c).
+  Notation ffp1 := (find_first_plus1 is_alnum c).
+
+  Lemma ffn_some : forall l, nlfree l -> l <> [] -> exists j, ffn l = Some j.
+  Proof.
+    induction l as [|a t IH]; intros NL NE; [congruence|].
+    inversion NL as [|? ? Ha Ht]; subst. destruct t as [|b t'].
+    - cbn. destruct (a =? NLc) eqn:E; [apply Z.eqb_eq in E; contradiction|eauto].
+    - change (ffn (a :: b :: t')) with
+        (if w a && negb (w b) then Some O else match ffn (b :: t') with Some j => Some (S j) | None => None end).
+      destruct (w a && negb (w b)); [eauto|]. destruct (IH Ht ltac:(discriminate)) as [j ->]. eauto.
+  Qed.
+
+  Lemma ffp1_cons_skip a b t : nlfree (a :: b :: t) -> w a && negb (w b) = false -> ffp1 (a :: b :: t) = S (ffp1 (b :: t)).
+  Proof.
+    intros NL E. unfold find_first_plus1.
+    change (ffn (a :: b :: t)) with
+      (if w a && negb (w b) then Some O else match ffn (b :: t) with Some j => Some (S j) | None => None end).
+    rewrite E. inversion NL; subst. destruct (ffn_some (b :: t)) as [j ->]; [assumption|discriminate|reflexivity].
+  Qed.
+
+  Lemma ffp1_in_word : forall t a, w a = true -> nlfree (a :: t) ->
+    ffp1 (a :: t) = (length (a :: t) - length (drop_while w (a :: t)))%nat.
+  Proof.
+    induction t as [|b t IH]; intros a Wa NL; inversion NL as [|? ? Ha Ht]; subst.
+    - unfold find_first_plus1. cbn. rewrite Wa. destruct (a =? NLc) eqn:E; [apply Z.eqb_eq in E; contradiction|reflexivity].
+    - destruct (w b) eqn:Wb.
+      + rewrite ffp1_cons_skip; [|exact NL|rewrite Wa, Wb; reflexivity].
+        rewrite (IH b Wb Ht). cbn [drop_while]. rewrite Wa, Wb.
+        pose proof (drop_while_len w t). cbn [length]. lia.
+      + unfold find_first_plus1.
+        change (ffn (a :: b :: t)) with
+          (if w a && negb (w b) then Some O else match ffn (b :: t) with Some j => Some (S j) | None => None end).
+        rewrite Wa, Wb. cbn [drop_while andb negb]. rewrite Wa, Wb. cbn [length]. lia.
+  Qed.
+
+  Lemma find_first_is_span : forall l, nlfree l -> ffp1 l = word_span w l.
+  Proof.
+    induction l as [|a t IH]; intro NL; [reflexivity|].
+    inversion NL as [|? ? Ha Ht]; subst.
+    destruct (w a) eqn:Wa.
+    - rewrite ffp1_in_word by assumption. unfold word_span. cbn [drop_while]. rewrite Wa. cbn [negb drop_while]. rewrite Wa. reflexivity.
+    - unfold word_span. cbn [drop_while]. rewrite Wa. cbn [negb]. fold (dw2 w t).
+      pose proof (dw2_len w t). destruct t as [|b t'].
+      + unfold find_first_plus1. cbn. destruct (a =? NLc) eqn:E; [apply Z.eqb_eq in E; contradiction|reflexivity].
+      + rewrite ffp1_cons_skip; [|exact NL|rewrite Wa; reflexivity]. rewrite (IH Ht). unfold word_span. fold (dw2 w (b :: t')).
+        cbn [length] in *. lia.
+  Qed.
+End Fwd.
+
+Lemma take_le {A} (l : list A) n : (n <= length l)%nat -> take l n = Ok (firstn n l).
+Proof. intro H. unfold take. apply Nat.leb_le in H. now rewrite H. Qed.
+Lemma drop_le {A} (l : list A) n : (n <= length l)%nat -> drop l n = Ok (skipn n l).
+Proof. intro H. unfold drop. apply Nat.leb_le in H. now rewrite H. Qed.
+Lemma slice_le {A} (l : list A) a b : (a <= b <= length l)%nat -> slice l a b = Ok (skipn a (firstn b l)).
+Proof.
+  intros [H1 H2]. unfold slice. apply Nat.leb_le in H1 as H1'. rewrite H1'. rewrite take_le by exact H2. cbn [bind].
+  apply drop_le. rewrite firstn_length. lia.
+Qed.
+
+Section WordActions.
+  Variable is_alnum : Z -> bool.
+  Variable c : cfg.
+  Notation w := (isw is_alnum c).
+  Notation wb := (fun x : Z => negb (is_blank x)).
+
+  Lemma bw_ncx (v : Z -> bool) rb : find_last_plus1 (p2w v) (rev rb) = (length rb - word_span v rb)%nat.
+  Proof. rewrite find_last_is_span, word_span_dw2. pose proof (dw2_len v rb). lia. Qed.
+
+  Lemma rubout_view rb a y s0 rx (v : Z -> bool) : (forall p q, rx p q = p2w v p q) ->
+    rubout (viewed rb a y s0) rx =
+    Ok (viewed (skipn (word_span v rb) rb) a (rev (firstn (word_span v rb) rb)) s0).
+  Proof.
+    intro RX. set (k := word_span v rb). assert (K : (k <= length rb)%nat) by apply word_span_le.
+    unfold rubout. cbn [s_cx s_input viewed]. rewrite drop_view, take_view. cbn [bind].
+    rewrite (find_last_ext rx (p2w v) RX) || (unfold find_last_plus1; rewrite (find_last_ext rx (p2w v) RX)).
+    fold (find_last_plus1 (p2w v) (rev rb)). rewrite bw_ncx. fold k.
+    rewrite slice_le by (rewrite app_length, rev_length; lia). cbn [bind].
+    rewrite take_le by (rewrite app_length, rev_length; lia). cbn [bind].
+    f_equal. rewrite firstn_view.
+    rewrite skipn_rev. replace (length rb - (length rb - k))%nat with k by lia.
+    rewrite firstn_app, rev_length. replace (length rb - k - length rb)%nat with O by lia. cbn [firstn]. rewrite app_nil_r.
+    rewrite firstn_rev. replace (length rb - (length rb - k))%nat with k by lia.
+    apply (viewed_eq (skipn k rb) a (rev (firstn k rb)) s0 rb a y); [reflexivity|now rewrite skipn_length].
+  Qed.
+
+  Lemma do_edit_view_word rb a y s0 act s' : c_inputless c = false -> is_word_motion act = true -> nlfree a ->
+    do_edit is_alnum c (viewed rb a y s0) act = Ok s' ->
+    exists rb' a' y', s' = viewed rb' a' y' s0 /\
+      mkZip rb' a' y' = zstep w (mkZip rb a y) (ecmd_of (viewed rb a y s0) act).
+  Proof.
+    intros NI W NL H. destruct act; try discriminate W; cbn -[Nat.ltb take drop slice word_span] in H.
+    - (* unix-word-rubout *)
+      destruct rb as [|x rb].
+      + cbn in H. inv_ok. exists [], a, y. split; reflexivity.
+      + change (Nat.ltb 0 (length (x :: rb))) with true in H. cbv iota in H.
+        rewrite (rubout_view (x :: rb) a y s0 _ wb) in H.
+        2:{ intros p q. unfold rx_space_nonspace, p2w. now rewrite negb_involutive. }
+        inv_ok. do 3 eexists. split; [reflexivity|].
+        cbn [zstep ecmd_of zb za zk]. unfold kill_left. cbn [zb za zk].
+        pose proof (word_span_pos wb x rb). destruct (word_span wb (x :: rb)); [lia|reflexivity].
+    - (* backward-kill-word *)
+      destruct rb as [|x rb].
+      + cbn in H. inv_ok. exists [], a, y. split; reflexivity.
+      + change (Nat.ltb 0 (length (x :: rb))) with true in H. cbv iota in H.
+        rewrite (rubout_view (x :: rb) a y s0 _ w) in H by (intros; reflexivity).
+        inv_ok. do 3 eexists. split; [reflexivity|].
+        cbn [zstep ecmd_of zb za zk]. unfold kill_left. cbn [zb za zk].
+        pose proof (word_span_pos w x rb). destruct (word_span w (x :: rb)); [lia|reflexivity].
+    - (* backward-word *)
+      rewrite take_view in H. cbn [bind] in H. inv_ok.
+      set (k := word_span w rb). assert (K : (k <= length rb)%nat) by apply word_span_le.
+      exists (skipn k rb), (rev (firstn k rb) ++ a), y. split; [|reflexivity].
+      change (rx_word_rubout is_alnum c) with (p2w w). rewrite bw_ncx. fold k.
+      apply viewed_eq; [|now rewrite skipn_length].
+      rewrite app_assoc, <- rev_app_distr, firstn_skipn. reflexivity.
+    - (* forward-word *)
+      rewrite drop_view in H. cbn [bind] in H. inv_ok.
+      rewrite (find_first_is_span is_alnum c a NL).
+      set (k := word_span w a). assert (K : (k <= length a)%nat) by apply word_span_le.
+      exists (rev (firstn k a) ++ rb), (skipn k a), y. split; [|reflexivity].
+      apply viewed_eq.
+      + rewrite rev_app_distr, rev_involutive, <- app_assoc, firstn_skipn. reflexivity.
+      + rewrite app_length, rev_length, firstn_length. lia.
+    - (* kill-word *)
+      rewrite drop_view in H. cbn [bind] in H.
+      rewrite (find_first_is_span is_alnum c a NL) in H.
+      set (k := word_span w a) in *. assert (K : (k <= length a)%nat) by apply word_span_le.
+      cbn [zstep ecmd_of zb za zk]. fold k. unfold kill_right. cbn [zb za zk].
+      destruct k as [|k'] eqn:Ek.
+      + rewrite Nat.add_0_r, Nat.ltb_irrefl in H. inv_ok. exists rb, a, y. split; reflexivity.
+      + replace (Nat.ltb (length rb) (length rb + S k')) with true in H by (symmetry; apply Nat.ltb_lt; lia).
+        rewrite slice_le in H by (rewrite app_length, rev_length; lia). cbn [bind] in H.
+        rewrite take_view in H. cbn [bind] in H.
+        rewrite drop_le in H by (rewrite app_length, rev_length; lia). cbn [bind] in H. inv_ok.
+        exists rb, (skipn (S k') a), (firstn (S k') a). split; [|reflexivity].
+        assert (F : firstn (length rb + S k') (rev rb ++ a) = rev rb ++ firstn (S k') a).
+        { rewrite firstn_app, rev_length. rewrite firstn_all2 by (rewrite rev_length; lia). f_equal. f_equal. lia. }
+        assert (S1 : skipn (length rb) (rev rb ++ firstn (S k') a) = firstn (S k') a) by apply skipn_view.
+        assert (S2 : skipn (length rb + S k') (rev rb ++ a) = skipn (S k') a).
+        { rewrite skipn_app, rev_length. rewrite skipn_all2 by (rewrite rev_length; lia). cbn [app]. f_equal. lia. }
+        rewrite F, S1, S2. apply viewed_eq; reflexivity.
+  Qed.
+End WordActions.
+
+(* ---------------------------------------------------------------- newline-freeness is an invariant; the full refinement *)
+Lemma Forall_firstn' {A} (P : A -> Prop) n : forall l, Forall P l -> Forall P (firstn n l).
+Proof. induction n as [|n IH]; intros l H; [constructor|]. destruct l; [constructor|]. inversion H; subst. cbn. constructor; auto. Qed.
+Lemma Forall_skipn' {A} (P : A -> Prop) n : forall l, Forall P l -> Forall P (skipn n l).
+Proof. induction n as [|n IH]; intros l H; [exact H|]. destruct l; [constructor|]. inversion H; subst. cbn. auto. Qed.
+Lemma Forall_tl {A} (P : A -> Prop) l : Forall P l -> Forall P (tl l).
+Proof. intro H. destruct l; [constructor|]. now inversion H. Qed.
+Lemma Forall_rev' {A} (P : A -> Prop) l : Forall P l -> Forall P (rev l).
+Proof. intro H. apply Forall_forall. intros x I. apply in_rev in I. rewrite Forall_forall in H. auto. Qed.
+Lemma Forall_app' {A} (P : A -> Prop) l1 l2 : Forall P l1 -> Forall P l2 -> Forall P (l1 ++ l2).
+Proof. intros H1 H2. apply Forall_forall. intros x I. apply in_app_or in I. rewrite Forall_forall in H1, H2. destruct I; auto. Qed.
+Lemma Forall_app_l {A} (P : A -> Prop) l1 l2 : Forall P (l1 ++ l2) -> Forall P l1 /\ Forall P l2.
+Proof. intro H. rewrite Forall_forall in H. split; apply Forall_forall; intros x I; apply H; apply in_or_app; auto. Qed.
+
+Definition zok (z : zip) : Prop := nlfree (zb z) /\ nlfree (za z) /\ nlfree (zk z).
+Definition cmd_ok (e : ecmd) : Prop := match e with EInsert t | ESet t => nlfree t | _ => True end.
+
+Ltac nl := unfold nlfree in *; repeat (first [apply Forall_app' | apply Forall_rev' | apply Forall_firstn' | apply Forall_skipn' | apply Forall_tl | assumption | constructor]).
+
+Lemma move_left_ok k z : zok z -> zok (move_left k z).
+Proof. intros (B & A & K). unfold move_left, zok. cbn [zb za zk]. repeat split; nl. Qed.
+Lemma move_right_ok k z : zok z -> zok (move_right k z).
+Proof. intros (B & A & K). unfold move_right, zok. cbn [zb za zk]. repeat split; nl. Qed.
+Lemma kill_left_ok k z : zok z -> zok (kill_left k z).
+Proof. intros (B & A & K). unfold kill_left, zok. destruct k; cbn [zb za zk]; repeat split; nl. Qed.
+Lemma kill_right_ok k z : zok z -> zok (kill_right k z).
+Proof. intros (B & A & K). unfold kill_right, zok. destruct k; cbn [zb za zk]; repeat split; nl. Qed.
+
+Lemma zstep_ok w z e : zok z -> cmd_ok e -> zok (zstep w z e).
+Proof.
+  intros Z E. destruct e; cbn [zstep];
+    try (apply move_left_ok; exact Z); try (apply move_right_ok; exact Z);
+    try (apply kill_left_ok; exact Z); try (apply kill_right_ok; exact Z); try exact Z.
+  all: try (destruct Z as (B & A & K); cbn in E; unfold zinsert, zok; cbn [zb za zk]; repeat split; nl; fail).
+  destruct Z as (B & A & K). destruct (ztext z) eqn:T; [repeat split; assumption|].
+  unfold zok. cbn [zb za zk]. split; [constructor|split; [constructor|]]. rewrite <- T. unfold ztext. nl.
+Qed.
+
+Definition items_ok (rs : list item) : Prop := Forall (fun it => nlfree (snd it)) rs.
+Definition act_ok (a : act) : Prop :=
+  match a with
+  | AChar ch => ch <> NLc
+  | APut t | AChangeQuery t => nlfree t
+  | AUpdate rs _ => items_ok rs
+  | _ => True
+  end.
+
+Lemma get_in {A} (l : list A) : forall n x, get l n = Ok x -> In x l.
+Proof. induction l as [|y l IH]; intros n x H; destruct n; cbn in H; try discriminate; [inversion H; now left|right; eauto]. Qed.
+
+Section Full.
+  Variable is_alnum : Z -> bool.
+  Variable c : cfg.
+  Notation w := (isw is_alnum c).
+
+  Lemma ecmd_of_ok s a : items_ok (s_res s) -> act_ok a -> cmd_ok (ecmd_of s a).
+  Proof.
+    intros I A. destruct a; cbn in *; auto.
+    - constructor; [exact A|constructor].
+    - unfold current_item. destruct ((0 <=? s_cy s) && (0 <? count s) && (s_cy s <? count s)); cbn; [|exact Logic.I].
+      destruct (get (s_res s) (Z.to_nat (s_cy s))) as [it|] eqn:G; cbn; [|exact Logic.I].
+      apply get_in in G. unfold items_ok in I. rewrite Forall_forall in I. now apply I.
+  Qed.
+
+  Lemma do_list_res s a s' : do_list c s a = Ok s' -> s_res s' = match a with AUpdate rs _ => rs | _ => s_res s end.
+  Proof.
+    intro H. destruct a; cbn in H; unfold toggle_and_move, update_list in H;
+      try (inv_ok; fin; fail);
+      try (apply constrain_frame in H; cbn in H; intuition congruence);
+      try (inv_ok; try reflexivity;
+           match goal with E : toggle_current _ _ = Ok ?p |- _ => destruct p as [b s1]; apply toggle_current_inv in E; destruct b; cbn; intuition congruence end).
+    all: unfold current_item in H; inv_ok; fin.
+  Qed.
+
+  Lemma word_is_edit a : is_word_motion a = true -> is_edit a = true.
+  Proof. destruct a; cbn; intro H; try discriminate; reflexivity. Qed.
+
+  Lemma do_action_zabs_full s a s' : c_inputless c = false -> cx_ok s -> nlfree (za (zabs s)) ->
+    do_action is_alnum c s a = Ok s' -> zabs s' = zstep w (zabs s) (ecmd_of s a).
+  Proof.
+    intros NI L NL H. destruct (is_word_motion a) eqn:W; [|eapply do_action_zabs; eauto].
+    unfold EditModel.do_action in H. rewrite NI in H. cbn [andb] in H. rewrite (word_is_edit a W) in H.
+    destruct (do_edit is_alnum c s a) as [s1|] eqn:E; cbn [bind] in H; [|discriminate]. inv_ok.
+    destruct (view s L) as (rb & a0 & Hi & Hc).
+    assert (Hs : s = viewed rb a0 (s_yanked s) s) by (destruct s; cbn in *; subst; reflexivity).
+    assert (Hz : zabs s = mkZip rb a0 (s_yanked s)).
+    { unfold zabs. rewrite Hi, Hc, firstn_view, skipn_view, rev_involutive. reflexivity. }
+    rewrite Hz in NL. cbn in NL.
+    assert (E' : do_edit is_alnum c (viewed rb a0 (s_yanked s) s) a = Ok s') by (rewrite <- Hs; exact E).
+    apply do_edit_view_word in E' as (rb' & a' & y' & -> & Z); [|exact NI|exact W|exact NL].
+    unfold viewed at 1. rewrite zabs_view, Hz, Z, <- Hs. reflexivity.
+  Qed.
+
+  Definition st_ok (s : st) : Prop := cx_ok s /\ zok (zabs s) /\ items_ok (s_res s).
+
+  Lemma do_action_st_ok s a s' : c_inputless c = false -> st_ok s -> act_ok a ->
+    do_action is_alnum c s a = Ok s' -> st_ok s' /\ zabs s' = zstep w (zabs s) (ecmd_of s a).
+  Proof.
+    intros NI (L & Z & I) A H.
+    pose proof (do_action_zabs_full s a s' NI L (proj1 (proj2 Z)) H) as R.
+    split; [|exact R]. split; [eapply do_action_cx_ok; eauto|]. split.
+    - rewrite R. apply zstep_ok; [exact Z|now apply ecmd_of_ok].
+    - unfold EditModel.do_action in H. rewrite NI in H. cbn [andb] in H.
+      destruct (is_edit a) eqn:Ed.
+      + destruct (do_edit is_alnum c s a) as [s1|] eqn:E; cbn [bind] in H; [|discriminate]. inv_ok.
+        apply do_edit_frame in E as (-> & _). exact I.
+      + destruct (do_list c s a) as [s1|] eqn:E; cbn [bind] in H; [|discriminate]. inv_ok.
+        apply do_list_res in E. rewrite E. destruct a; try exact I. exact A.
+  Qed.
+
+  Theorem edit_refines_zipper_proof : forall acts s s' z', c_inputless c = false -> st_ok s -> Forall act_ok acts ->
+    run_z is_alnum c s (zabs s) acts = Ok (s', z') -> z' = zabs s'.
+  Proof.
+    induction acts as [|a r IH]; intros s s' z' NI S A H; cbn in H; [inv_ok; reflexivity|].
+    inversion A as [|? ? Aa Ar]; subst.
+    destruct (do_action is_alnum c s a) as [s1|] eqn:E; cbn [bind] in H; [|discriminate].
+    destruct (do_action_st_ok s a s1 NI S Aa E) as (S1 & R). rewrite <- R in H.
+    eapply IH; eauto.
+  Qed.
+End Full.
+
+(* ---------------------------------------------------------------- cursor moves are the spec's cur_move / clamp_pos *)
+Definition is_cursor_move (a : act) : bool :=
+  match a with AUp | ADown | AFirst | ALast | APos _ | APageUp | APageDown | AHalfPageUp | AHalfPageDown => true | _ => false end.
+Definition sp_of (c : cfg) : sparams :=
+  mkSP (c_multi c) (c_cycle c) (negb (c_default_layout c)) (c_maxitems c) (c_inputless c).
+(* what the user sees of a model state: the cursor as a redraw shows it *)
+Definition sabs (s : st) : sstate := mkSS (zabs s) (s_res s) (clamp_pos (count s) (s_cy s)) (s_sel s).
+
+Ltac zcases :=
+  repeat (match goal with
+  | |- context[?a <? ?b] => let E := fresh "E" in destruct (a <? b) eqn:E; [apply Z.ltb_lt in E|apply Z.ltb_ge in E]
+  | |- context[?a =? ?b] => let E := fresh "E" in destruct (a =? b) eqn:E; [apply Z.eqb_eq in E|apply Z.eqb_neq in E]
+  | H : context[?a <? ?b] |- _ => let E := fresh "E" in destruct (a <? b) eqn:E; [apply Z.ltb_lt in E|apply Z.ltb_ge in E]
+  | H : context[?a =? ?b] |- _ => let E := fresh "E" in destruct (a =? b) eqn:E; [apply Z.eqb_eq in E|apply Z.eqb_neq in E]
+  end; cbn [andb orb negb] in *).
+
+Section Cursor.
+  Variable c : cfg.
+
+  Lemma constrain_cy s s' : 1 <= c_maxitems c -> constrain c s = Ok s' ->
+    s_cy s' = constrain_z (s_cy s) 0 (Z.max 0 (count s - 1)) /\ s_res s' = s_res s /\ s_sel s' = s_sel s.
+  Proof.
+    intros M H. pose proof (constrain_frame c s s' H) as (_ & _ & _ & R & S). unfold constrain in H.
+    match type of H with bind ?x _ = _ => destruct x as [r|] eqn:E end; cbn [bind] in H; [|discriminate].
+    inv_ok. apply constrain_loop_cy in E. cbn [s_cy]. destruct (Z.to_nat (c_maxitems c)) eqn:T; [lia|]. auto.
+  Qed.
+
+  Definition cur_in (s : st) : Prop := count s = 0 \/ 0 <= s_cy s < count s.
+
+  Lemma vset_spec s o : clamp_pos (count s) (s_cy (vset s o)) = clamp_pos (count s) o /\ cur_in (vset s o).
+  Proof.
+    unfold vset, cur_in, clamp_pos, clampz, constrain_z, count. cbn [s_cy s_res set_cy].
+    set (n := Z.of_nat (length (s_res s))). assert (0 <= n) by (unfold n; lia). clearbody n.
+    split; zcases; lia.
+  Qed.
+
+  Lemma clamp_pos_in n v : 0 <= v < n -> clamp_pos n v = v.
+  Proof. intro H. unfold clamp_pos, clampz. zcases; lia. Qed.
+  Lemma clamp_pos_0 v : clamp_pos 0 v = 0.
+  Proof. unfold clamp_pos, clampz. zcases; lia. Qed.
+
+  Lemma vmove_spec s (up : bool) : cur_in s ->
+    clamp_pos (count s) (s_cy (vmove c s (if up then 1 else -1))) =
+      cur_move (c_cycle c) (count s) (clamp_pos (count s) (s_cy s)) (dirz (sp_of c) up) /\ cur_in (vmove c s (if up then 1 else -1)).
+  Proof.
+    intro I. unfold vmove. split; [|apply vset_spec].
+    rewrite (proj1 (vset_spec s _)).
+    destruct I as [Z0|R].
+    - rewrite Z0. unfold cur_move. rewrite !clamp_pos_0.
+      repeat match goal with |- context[if ?b then _ else _] => destruct b end; rewrite ?clamp_pos_0; reflexivity.
+    - rewrite (clamp_pos_in _ _ R). unfold cur_move, dirz, sp_of. cbn [sp_flip sp_cycle].
+      set (n := count s) in *. set (cy := s_cy s) in *. clearbody n cy.
+      destruct (c_default_layout c), (c_cycle c), up; cbn [xorb negb andb]; unfold clamp_pos, clampz; zcases; lia.
+  Qed.
+
+  Lemma constrain_vset s o s' : 1 <= c_maxitems c -> constrain c (vset s o) = Ok s' ->
+    clamp_pos (count s') (s_cy s') = clamp_pos (count s) o /\ s_res s' = s_res s /\ s_sel s' = s_sel s /\ cur_in s'.
+  Proof.
+    intros M H. apply constrain_cy in H as (Cy & R & S); [|exact M].
+    cbn [s_res s_sel s_cy vset set_cy] in R, S, Cy. change (count (vset s o)) with (count s) in Cy.
+    assert (Cs : count s' = count s) by (unfold count; now rewrite R).
+    unfold cur_in. rewrite Cs, Cy. repeat split; auto.
+    - unfold clamp_pos, clampz, constrain_z, count. set (n := Z.of_nat (length (s_res s))).
+      assert (0 <= n) by (unfold n; lia). clearbody n. zcases; lia.
+    - unfold constrain_z, count. set (n := Z.of_nat (length (s_res s))).
+      assert (0 <= n) by (unfold n; lia). clearbody n. zcases; lia.
+  Qed.
+
+  Theorem cursor_refines_cur_move_proof : forall s a s', 1 <= c_maxitems c -> is_cursor_move a = true -> cur_in s ->
+    do_list c s a = Ok s' ->
+    clamp_pos (count s') (s_cy s') = ss_pos (sstep_list (sp_of c) (sabs s) a) /\
+    s_res s' = s_res s /\ s_sel s' = s_sel s /\ cur_in s'.
+  Proof.
+    intros s a s' M W I H. destruct a; try discriminate W; cbn [do_list] in H.
+    - (* up *) inv_ok. pose proof (vmove_spec s true I) as (V & J). cbn [sstep_list smove with_pos ss_pos ss_count sabs ss_res].
+      fold (count s). change (count (vmove c s 1)) with (count s). rewrite V. auto.
+    - (* down *) inv_ok. pose proof (vmove_spec s false I) as (V & J). cbn [sstep_list smove with_pos ss_pos ss_count sabs ss_res].
+      fold (count s). change (count (vmove c s (-1))) with (count s). rewrite V. auto.
+    - (* first *) apply constrain_vset in H as (V & R & S & J); [|exact M].
+      cbn [sstep_list with_pos ss_pos ss_count sabs ss_res]. fold (count s). auto.
+    - (* last *) apply constrain_vset in H as (V & R & S & J); [|exact M].
+      cbn [sstep_list with_pos ss_pos ss_count sabs ss_res]. fold (count s). auto.
+    - (* pos *) apply constrain_vset in H as (V & R & S & J); [|exact M].
+      cbn [sstep_list with_pos ss_pos ss_count sabs ss_res]. fold (count s). auto.
+    - (* page-up *) inv_ok. unfold page_move. match goal with |- context[vset s ?o] => pose proof (vset_spec s o) as (V & J) end.
+      cbn [sstep_list with_pos ss_pos]. change (ss_count (sabs s)) with (count s). change (ss_pos (sabs s)) with (clamp_pos (count s) (s_cy s)).
+      split; [|auto]. etransitivity; [exact V|].
+      unfold dirz, sp_of. cbn [sp_flip sp_page].
+      destruct I as [Z0|R]; [rewrite Z0, !clamp_pos_0; reflexivity|rewrite (clamp_pos_in _ _ R)].
+      destruct (c_default_layout c); cbn [xorb negb]; f_equal; lia.
+    - (* page-down *) inv_ok. unfold page_move. match goal with |- context[vset s ?o] => pose proof (vset_spec s o) as (V & J) end.
+      cbn [sstep_list with_pos ss_pos]. change (ss_count (sabs s)) with (count s). change (ss_pos (sabs s)) with (clamp_pos (count s) (s_cy s)).
+      split; [|auto]. etransitivity; [exact V|].
+      unfold dirz, sp_of. cbn [sp_flip sp_page].
+      destruct I as [Z0|R]; [rewrite Z0, !clamp_pos_0; reflexivity|rewrite (clamp_pos_in _ _ R)].
+      destruct (c_default_layout c); cbn [xorb negb]; f_equal; lia.
+    - (* half-page-up *) inv_ok. unfold page_move. match goal with |- context[vset s ?o] => pose proof (vset_spec s o) as (V & J) end.
+      cbn [sstep_list with_pos ss_pos]. change (ss_count (sabs s)) with (count s). change (ss_pos (sabs s)) with (clamp_pos (count s) (s_cy s)).
+      split; [|auto]. etransitivity; [exact V|].
+      unfold dirz, sp_of. cbn [sp_flip sp_page].
+      destruct I as [Z0|R]; [rewrite Z0, !clamp_pos_0; reflexivity|rewrite (clamp_pos_in _ _ R)].
+      destruct (c_default_layout c); cbn [xorb negb]; f_equal; lia.
+    - (* half-page-down *) inv_ok. unfold page_move. match goal with |- context[vset s ?o] => pose proof (vset_spec s o) as (V & J) end.
+      cbn [sstep_list with_pos ss_pos]. change (ss_count (sabs s)) with (count s). change (ss_pos (sabs s)) with (clamp_pos (count s) (s_cy s)).
+      split; [|auto]. etransitivity; [exact V|].
+      unfold dirz, sp_of. cbn [sp_flip sp_page].
+      destruct I as [Z0|R]; [rewrite Z0, !clamp_pos_0; reflexivity|rewrite (clamp_pos_in _ _ R)].
+      destruct (c_default_layout c); cbn [xorb negb]; f_equal; lia.
+  Qed.
+End Cursor.
+
+(* ---------------------------------------------------------------- the model never fails *)
+Lemma get_total {A} (l : list A) : forall n, (n < length l)%nat -> exists v, get l n = Ok v.
+Proof. induction l as [|y l IH]; intros n Hn; [cbn in Hn; lia|]. destruct n; cbn; [eauto|]. apply IH. cbn in Hn. lia. Qed.
+
+Lemma current_item_total s : exists r, current_item s = Ok r.
+Proof.
+  unfold current_item, count.
+  destruct ((0 <=? s_cy s) && (0 <? Z.of_nat (length (s_res s))) && (s_cy s <? Z.of_nat (length (s_res s)))) eqn:G; [|eauto].
+  apply andb_true_iff in G as [G G3]. apply andb_true_iff in G as [G1 G2]. apply Z.leb_le in G1. apply Z.ltb_lt in G3.
+  destruct (get_total (s_res s) (Z.to_nat (s_cy s)) ltac:(lia)) as [v ->]. cbn. eauto.
+Qed.
+
+Section Total.
+  Variable is_alnum : Z -> bool.
+  Variable c : cfg.
+
+  Ltac bnd :=
+    rewrite ?app_length, ?firstn_length, ?skipn_length;
+    repeat match goal with
+    | |- context[find_last_plus1 ?p ?l] =>
+        lazymatch goal with
+        | _ : (find_last_plus1 p l <= length l)%nat |- _ => fail
+        | _ => pose proof (find_last_plus1_le p l)
+        end
+    | |- context[find_first_plus1 is_alnum c ?l] =>
+        lazymatch goal with
+        | _ : (find_first_plus1 is_alnum c l <= length l)%nat |- _ => fail
+        | _ => pose proof (find_first_plus1_le is_alnum c l)
+        end
+    end;
+    rewrite ?firstn_length, ?skipn_length in *; lia.
+  Ltac tk := repeat (first [ rewrite take_le by bnd | rewrite drop_le by bnd | rewrite slice_le by bnd ]; cbn [bind]).
+
+  Lemma do_edit_total s a : cx_ok s -> exists s', do_edit is_alnum c s a = Ok s'.
+  Proof.
+    intro L. unfold cx_ok in L.
+    destruct a; cbn -[Nat.ltb Nat.leb Nat.min take drop slice MAXQ]; unfold insert_at, rubout;
+      cbn -[Nat.ltb Nat.leb Nat.min take drop slice MAXQ];
+      repeat match goal with
+      | |- context[Nat.ltb ?a ?b] => let E := fresh "E" in destruct (Nat.ltb a b) eqn:E; [apply Nat.ltb_lt in E|apply Nat.ltb_ge in E]
+      end; cbn [andb]; tk; try (eexists; reflexivity).
+    all: try (match goal with |- context[Nat.ltb ?a ?b] => destruct (Nat.ltb a b) end; eauto; fail).
+    all: try (destruct (current_item_total s) as [r ->]; cbn [bind]; eauto; fail).
+    all: destruct (c_inputless c); eauto.
+  Qed.
+
+  Lemma toggle_current_total s : exists r, toggle_current c s = Ok r.
+  Proof.
+    unfold toggle_current. destruct (current_item_total s) as [[it|] ->]; cbn [bind]; [|eauto].
+    destruct (toggle_item c it (s_sel s)). eauto.
+  Qed.
+
+  Lemma do_list_total s a : exists s', do_list c s a = Ok s'.
+  Proof.
+    destruct a; cbn [do_list]; unfold toggle_and_move, update_list; try (eexists; reflexivity); try apply constrain_total_proof.
+    all: try (destruct (multi_on c && (0 <? count s)); [|eauto]; destruct (toggle_current_total s) as [r ->]; cbn [bind]; eauto; fail).
+    all: try (destruct (c_default_layout c); (destruct (multi_on c && (0 <? count s)); [|eauto]); destruct (toggle_current_total s) as [r ->]; cbn [bind]; eauto; fail).
+    all: try (destruct (current_item_total s) as [r ->]; cbn [bind]; eauto; fail).
+    (* update *)
+    destruct (negb reload && c_track c).
+    - destruct (0 <? count s).
+      + destruct (current_item_total s) as [r ->]. cbn [bind].
+        match goal with |- context[let '(_, _) := ?x in _] => destruct x end. eauto.
+      + cbn [bind]. match goal with |- context[let '(_, _) := ?x in _] => destruct x end. eauto.
+    - cbn [bind]. match goal with |- context[let '(_, _) := ?x in _] => destruct x end. eauto.
+  Qed.
+
+  Theorem run_never_fails_proof : forall acts s, cx_ok s -> exists s', run is_alnum c s acts = Ok s'.
+  Proof.
+    induction acts as [|a r IH]; intros s L; cbn [run]; [eauto|].
+    assert (T : exists s1, do_action is_alnum c s a = Ok s1).
+    { unfold EditModel.do_action. destruct (is_edit a).
+      - destruct (do_edit_total s a L) as [s1 ->]. cbn [bind]. destruct (c_inputless c && is_action a); eauto.
+      - destruct (do_list_total s a) as [s1 ->]. cbn [bind]. destruct (c_inputless c && is_action a); eauto. }
+    destruct T as [s1 T]. rewrite T. cbn [bind]. apply IH. eapply do_action_cx_ok; eauto.
+  Qed.
+End Total.
